@@ -20,7 +20,7 @@ run_props() { # name props...
   local name="$1"; shift
   for p in "$@"; do
     "$DIR/scripts/with_repo.sh" "$WT" "$SCRATCH" "$p" quick > "/tmp/sens/$name-$p.out" 2>&1; local rc=$?
-    local v; v=$(grep -m1 -A1 '^VIOLATION' "/tmp/sens/$name-$p.out" | tail -1 | cut -c1-160 | tr '|' '/')
+    local v; v=$(grep -m1 -A1 '^VIOLATION' "/tmp/sens/$name-$p.out" | tail -1 | cut -c1-160 | iconv -f utf-8 -t utf-8 -c | tr '|' '/')
     echo "| $name | $p | $rc | $v |" >> "$OUT"
     echo "$name $p exit=$rc $v"
   done
